@@ -604,8 +604,15 @@ func (h *Hub) saveConnectionState(conn *Connection) {
 		clientID = conn.ID
 	}
 
+	// clientID is client-controlled connection data: fall back to the
+	// connection ID instead of panicking the hub loop on a non-string value.
+	clientIDStr, ok := clientID.(string)
+	if !ok {
+		clientIDStr = conn.ID
+	}
+
 	state := &ConnectionState{
-		ClientID: clientID.(string),
+		ClientID: clientIDStr,
 		LastSeen: time.Now(),
 		Data:     make(map[string]interface{}),
 		Rooms:    conn.GetRooms(),
